@@ -54,6 +54,8 @@ pub struct Ghost {
     /// terms in which a leader was elected by a node matching the S3 history precondition
     pub tainted_terms: BTreeSet<u64>,
     pub tainted_nodes: BTreeSet<NodeId>,
+    /// (term, highest index) each node has acknowledged in a released MsgAppendResponse of that term
+    pub acked: BTreeMap<NodeId, (u64, u64)>,
 }
 
 impl Ghost {
@@ -77,6 +79,7 @@ impl Ghost {
             proposals: BTreeSet::new(),
             tainted_terms: BTreeSet::new(),
             tainted_nodes: BTreeSet::new(),
+            acked: BTreeMap::new(),
         }
     }
 
